@@ -27,14 +27,14 @@ ASSUMPTIONS = ['pandas / json / joblib / the OS store and return what they are g
 LEVEL_TEXT = ('Coq theorems: every CSV line written for a reported row loads back as that row, the whole table loads back with the same rows / scalar permeate condition / '
               'length; a constructed diffusion curve (any length >= 1, either composition basis) is written as one line per point and loads back (through from_frame AND the '
               'DiffusionCurve constructor) with the same temperature, permeate condition, fluxes, permeances in kg units and mass-fraction compositions, a mass-fraction curve '
-              'is a fixed point, a file with holes in both the flux and the permeance columns is rejected; the JSON forms of PervaporationFunction and Conditions load back '
+              'is a fixed point, a file with holes in both the flux and the permeance columns is rejected; a curve-set file is grouped by numeric curve identifier (DiffusionCurveSet.load): curves written under ascending identifiers load back as that list, the loaded set depends only on the own lines of each identifier in file order (any interleaving of the lines), a single-identifier file is a one-curve set; the JSON forms of PervaporationFunction and Conditions load back '
               'field for field (the temperature programme is not stored), an out-of-range stored composition is rejected; for every prior directory listing and every hash '
               'value a save either raises FileExistsError or creates a directory that did not exist and keeps all others. Tie (correspondence): the model is EXECUTED inside '
-              'Coq (vm_compute, binary64 via PrimFloat) on generated process models, curves (built from fluxes / permeances in kg, SI, GPU / both; files with blanked columns), '
+              'Coq (vm_compute, binary64 via PrimFloat) on generated process models, curves (built from fluxes / permeances in kg, SI, GPU / both; files with blanked columns; multi-curve set files with shuffled lines and unordered identifiers), '
               'functions and conditions and compared with the bytes the real save wrote (exact, cell by cell / key by key) and with what the real load returned (1e-9), '
               'incl. unit and mole->mass conversion on load and re-computation of permeances from fluxes when the permeance columns are missing.')
 LEVEL_NOTE = ('partial: pandas/joblib/json/OS behaviour is an oracle (assumed to store and return what it is given); the binary joblib form has no model (identity by '
-              'assumption, compared field for field on every run); DiffusionCurveSet grouping by curve_id is not modelled (single-curve files)')
+              'assumption, compared field for field on every run); curve identifiers are modelled as numbers and one mixture per file')
 TECHNIQUE = 'Coq proof (column-map round trip, abstract file system) + correspondence: model executed by vm_compute vs real save/load'
 DESIGN_REF = 'DESIGN.md section 6 C17'
 
